@@ -248,9 +248,9 @@ def r5_shared_insertion(ctx):
     yield Ob('x12context:X12ContextReader._add_segment opens child loops through _add_loop_node', ok, ctx.floc(f), '' if ok else 'loop creation changed')
 
 RULES = [
-    Rule('C09.R1', 'the tree under construction is yielded on every path to the end of the generator', r1_flush, floor=2),
-    Rule('C09.R2', 'each source segment is placed in the tree or yielded exactly once per iteration', r2_one_disposition, floor=4),
-    Rule('C09.R3', 'every node created in iter_segments gets seg_count and cur_line_number from the right getters', r3_position_fields, floor=9),
-    Rule('C09.R4', 'every self.method() in x12context resolves; _add_segment attaches to the computed loop, pops before pushes', r4_resolution_and_attachment, floor=24),
-    Rule('C09.R5', 'shared with C10.R5: child loops are placed by map position after existing siblings', r5_shared_insertion, floor=8),
+    Rule('C09.R1', 'the tree under construction is yielded on every path to the end of the generator', r1_flush, floor=1),
+    Rule('C09.R2', 'each source segment is placed in the tree or yielded exactly once per iteration', r2_one_disposition, floor=3),
+    Rule('C09.R3', 'every node created in iter_segments gets seg_count and cur_line_number from the right getters', r3_position_fields, floor=6),
+    Rule('C09.R4', 'every self.method() in x12context resolves; _add_segment attaches to the computed loop, pops before pushes', r4_resolution_and_attachment, floor=18),
+    Rule('C09.R5', 'shared with C10.R5: child loops are placed by map position after existing siblings', r5_shared_insertion, floor=6),
 ]
